@@ -276,7 +276,12 @@ func runE2E(seed int64, total int) (evs []jev, incomplete string) {
 	}
 	joe := &sse.Joe{Replayer: rep}
 	srv := &sse.Server{Provider: joe}
-	log.add(jev{"e": "reset", "seed": seed, "total": total, "replayer": kind, "auto": auto})
+	onSession := rng.Intn(2) == 0
+	if onSession {
+		// a server with a session callback that lets everybody in on the default topic: resuming works the same
+		srv.OnSession = func(http.ResponseWriter, *http.Request) ([]string, bool) { return nil, true }
+	}
+	log.add(jev{"e": "reset", "seed": seed, "total": total, "replayer": kind, "auto": auto, "onsession": onSession})
 	want := map[string]e2eMsg{}
 	idToK := func(s string) int {
 		if s == "" {
